@@ -63,10 +63,15 @@ CLAIMED = {
              "where enough ups/downs would; WHOLE WALKS (C07_recall_walk): from the line being typed, any sequence of previous / "
              "next steps ends where an index walked over the stored list ends -- on an entry exactly that entry with the cursor "
              "at its end, back past the newest the typed line and its cursor restored exactly -- with the list unchanged and no "
-             "panic on the way. PARTIAL: Up/Down inside multi-line text (line motion first) and edits made to a recalled entry "
-             "are decided by the reference-walk oracle and the correspondence.",
+             "panic on the way; MULTI-LINE TEXT: with a line break before (after) the cursor, Up (Down) only moves the cursor to an "
+             "earlier (later) line -- text, history, position in it, saved line, undo stack and kill ring untouched -- and on the "
+             "top (bottom) line it is exactly the history step; EDITS: no command other than the eight history-navigation commands "
+             "writes the stored list, the position in it or the saved line, so after any edit of a recalled entry Up / Down show "
+             "the neighbouring stored entries exactly and Down past the newest restores the typed line. The composition of these "
+             "steps over whole key sequences with edits in between is the model's main loop, tied to the code by the recall "
+             "stream and judged by the reference-walk oracle.",
         note=TTY_NOTE + "Default history back end.",
-        technique="Coq proof: 'keeps the history field' calculus over the editor monad with fuel induction for every loop; symbolic execution of the recall steps; extracted-model differential check through a pty + reference-walk oracle"),
+        technique="Coq proof: 'keeps the history field' calculus over the editor monad with fuel induction for every loop; symbolic execution of the recall steps; induction over the index walk; loop invariants of the line-up / line-down scans; a second 'keeps' calculus for position and saved line; extracted-model differential check through a pty + reference-walk oracle"),
     "C08": dict(
         text="Theorems over the search loop of the editor model (one key, arbitrary continuation) on top of C09's search theorems: "
              "a hit is a stored entry that contains the search text at the reported offset and is the NEAREST such entry from the "
